@@ -186,7 +186,7 @@ impl Property for C17 {
             st.exhaustive_parts.push("ALIGN == 1 for every portable shape of the corpus".into());
         }
         if shard == nshards - 1 {
-            for feature in ["tag_u16", "tag_u32", "np_sized_field", "np_struct_tail", "np_enum_tail", "np_native_len"] {
+            for feature in ["tag_u16", "tag_u32", "np_sized_field", "np_struct_tail", "np_enum_tail", "np_native_len", "np_flex_native_len", "np_string_native_len", "np_flex_item", "np_array_item"] {
                 st.eval(1);
                 match probe(feature) {
                     Err(m) => vfail!("harness-probe", "harness: compile probe {}: {}", feature, m),
@@ -206,7 +206,7 @@ impl Property for C17 {
                     }
                 }
             }
-            st.exhaustive_parts.push("compile probes: portable enums with tag_type u16 / u32, portable structs / enums with a native field, a non-portable tail, a native length type".into());
+            st.exhaustive_parts.push("compile probes: portable enums with tag_type u16 / u32, portable structs / enums with a native field or array, a non-portable tail or FlexVec item, a native length type of a FlatVec / FlatString / FlexVec".into());
         }
         Ok(())
     }
